@@ -42,6 +42,8 @@ type Clause struct {
 }
 
 type FuncContract struct {
+	PrefixOnly bool
+	PrefixCut  string // the only unsupported-construct message a prefix-only function may be cut at
 	Name     string
 	Pkg      string
 	Props    []string
@@ -101,7 +103,7 @@ func newContracts() *Contracts {
 }
 
 var clauseKeywords = map[string]bool{"func": true, "props": true, "requires": true, "ensures": true, "assigns": true,
-	"loop": true, "inline": true, "lemma": true, "pure": true, "ghost": true, "canary": true, "trusted": true, "canarylemma": true, "comparator": true, "trusted-ensures": true}
+	"loop": true, "inline": true, "lemma": true, "pure": true, "ghost": true, "canary": true, "trusted": true, "canarylemma": true, "comparator": true, "trusted-ensures": true, "prefix-only": true}
 
 func (cs *Contracts) parseFile(path, pkgPath string) error {
 	data, err := os.ReadFile(path)
@@ -139,7 +141,7 @@ func (cs *Contracts) parseFile(path, pkgPath string) error {
 	var cur *FuncContract
 	for _, r := range raws {
 		low := strings.ToLower(r.text)
-		if strings.Contains(low, "assume") || strings.Contains(low, "axiom") || strings.Contains(low, "trusted") {
+		if strings.Contains(low, "assume") || strings.Contains(low, "axiom") || strings.Contains(low, "trusted") || strings.Contains(low, "prefix-only") {
 			cs.Scan = append(cs.Scan, fmt.Sprintf("%s:%d: %s", path, r.line, r.text))
 		}
 		fields := strings.Fields(r.text)
@@ -153,6 +155,12 @@ func (cs *Contracts) parseFile(path, pkgPath string) error {
 					c.Label = text[1:j]
 					// [label using lemma1 lemma2]: of the step clauses of the loop only the named ones are offered as
 					// lemmas when this clause is proved (fewer hypotheses: faster, more stable proofs)
+					// [label also C19 C15]: the obligations of this clause also belong to the named properties (a
+					// property whose functions rely on this postcondition at a call checks it too)
+					if k := strings.Index(c.Label, " also "); k > 0 {
+						c.Props = strings.Fields(c.Label[k+6:])
+						c.Label = strings.TrimSpace(c.Label[:k])
+					}
 					if k := strings.Index(c.Label, " using "); k > 0 {
 						c.Uses = strings.Fields(c.Label[k+7:])
 						c.Label = strings.TrimSpace(c.Label[:k])
@@ -185,6 +193,14 @@ func (cs *Contracts) parseFile(path, pkgPath string) error {
 			cur.Inline = true
 		case "trusted":
 			cur.Trusted = true
+		case "prefix-only":
+			// the function contains a construct outside the subset: it is verified up to that construct only, the
+			// rest of its body is not verified (reported as an unchecked assumption)
+			cur.PrefixOnly = true
+			cur.PrefixCut = strings.Trim(rest, "\" ")
+			if cur.PrefixCut == "" {
+				return fmt.Errorf("%s:%d: prefix-only needs the message of the one construct it may cut at", path, r.line)
+			}
 		case "requires", "ensures":
 			if cur == nil {
 				return fmt.Errorf("%s:%d: %s outside func", path, r.line, kw)
